@@ -360,6 +360,40 @@ def render_case(name, backend, g, failing, ops):
     return "\n".join(out) + "\n"
 
 
+
+
+def parse_case(text):
+    """Inverse of render_case (first case of the text): -> (name, backend, graph, failing, ops)."""
+    name = backend = None
+    table = []
+    ops = []
+    for line in text.splitlines():
+        f = line.split()
+        if not f:
+            continue
+        if f[0] == "case":
+            if name is not None:
+                break
+            name, backend = f[1], f[2]
+        elif f[0] == "c":
+            pr = f[2]
+            prio = ("b", int(pr[1:])) if pr[0] == "b" else (pr[0],)
+            par = () if f[3] == "-" else ((int(f[3][1:]),) if f[3][0] == "s" else tuple(int(x) for x in f[3][1:].split(",")))
+            table.append((int(f[1]), prio, par, f[4] if len(f) > 4 else "a"))
+        elif f[0] == "o":
+            ops.append(("add", [int(x) for x in f[2].split(",") if x]) if f[1] == "add" else (f[1],))
+        elif f[0] == "end":
+            break
+    g = Graph()
+    failing = None
+    # a trailing merge that is delivered last and never referenced may be the failing one: decide with the reference
+    for (i, prio, par, data) in table:
+        if len(par) == 2 and all(p in g.cmds for p in par) and braid_spec(g, par)[0] == "parfin" and failing is None:
+            failing = (i, prio, par, data)
+            continue
+        g.add(i, prio, par, data)
+    return name, backend, g, failing, ops
+
 # ---------------------------------------------------------------- running the implementation
 
 def parse_ids(s):
@@ -674,8 +708,18 @@ def run_braid_check(ctx, focus):
     ngraphs = {"C02": 70, "C03": 90, "C05": 110}[focus] * (12 if thorough else 1)
     nmax = 40
     graphs = []          # (name, graph, failing, meta)
-    for (name, g) in corpus_graphs():
-        graphs.append((name, g, None, {"style": "corpus"}))
+    replay_plan = None
+    if ctx.replay_in:
+        # --replay <file>: re-run exactly the recorded history through the same oracles
+        import json
+        rp = json.load(open(ctx.replay_in))
+        rname, rbackend, rg, rfailing, rops = parse_case(rp.get("case", ""))
+        graphs.append((rname or "replay", rg, rfailing, {"style": "replay"}))
+        replay_plan = [((rname or "replay"), 0, rbackend or "mem", rops)]
+        ngraphs = 0
+    else:
+        for (name, g) in corpus_graphs():
+            graphs.append((name, g, None, {"style": "corpus"}))
     for i in range(ngraphs):
         n = r.range(4, nmax) if not (thorough and i % 10 == 0) else r.range(100, 400)
         style = None
@@ -684,7 +728,7 @@ def run_braid_check(ctx, focus):
         g, failing, meta = gen_graph(r, n, style)
         graphs.append(("g%d" % i, g, failing, meta))
     big = []
-    if focus in ("C02", "C03"):
+    if focus in ("C02", "C03") and not replay_plan:
         if thorough:
             big = [("spill_conv", spill_graph(r, 800, 2)), ("spill_braid", spill_graph(r, 150, 3)), ("spill_both", spill_graph(r, 1000, 1)),
                    ("spill_conv_many_blocks", spill_graph(r, 1700, 1))]
@@ -700,6 +744,10 @@ def run_braid_check(ctx, focus):
     text = []
     plan = []            # (case name, graph index, backend, ops)
     for gi, (name, g, failing, meta) in enumerate(graphs):
+        if replay_plan:
+            plan = replay_plan
+            text = [render_case(replay_plan[0][0], replay_plan[0][2], g, failing, replay_plan[0][3])]
+            break
         big_g = len(g.order) > 500
         layouts = 1 if big_g else (2 if focus != "C03" else 3)
         for li in range(layouts):
